@@ -278,6 +278,7 @@ def run(tier: str, seed: int, workers: int) -> int:
 
 def replay(path: str, viol: Dict[str, Any], runner: Optional[Runner], quiet: bool) -> int:
     chk = C18Check(viol.get("tier", "quick"), int(viol.get("seed", 0)))
+    chk.replaying = True
     own = runner is None
     if runner is not None:
         chk.runner.close()
